@@ -104,6 +104,16 @@ type nativeResult struct {
 }
 
 func (rp *replayer) runNative(ref harnessRef, path string) (nativeResult, string) {
+	nr, errs := rp.runNativeOnce(ref, path)
+	if errs == "" && (nr.result == "panic:crash" || nr.result == "no-result") {
+		// a process that died without a harness verdict (thread or memory limits on a loaded machine) is run once more; a
+		// crash of the code under test repeats
+		nr, errs = rp.runNativeOnce(ref, path)
+	}
+	return nr, errs
+}
+
+func (rp *replayer) runNativeOnce(ref harnessRef, path string) (nativeResult, string) {
 	bin, errs := rp.build(ref.rel)
 	if bin == "" {
 		return nativeResult{}, errs
